@@ -6,7 +6,7 @@ VERUS = [dict(
     name="with_fetch_rows",
     uses="use vstd::prelude::*;\n",
     prelude="prelude.rs", proofs="proofs.rs", witness="witness.rs", rlimit=60, min_verified=5,
-    twins=["c29_with_fetch_rows_partitions", "c29_with_fetch_rows"], twin_timeout=600,
+    twins=["c29_with_fetch_rows_partitions", "c29_with_fetch_single_partition"], twin_timeout=600,
     items=[
         dict(file=F, path=["enum Precision"], prefix="#[derive(Clone, Copy)]\n", edits=[NOBOUNDS]),
         dict(file=F, path=["impl<T: Debug + Clone + PartialEq + Eq + PartialOrd> Precision<T>", "fn is_exact"], wrap="impl<T> Precision<T>", ret="r",
@@ -58,7 +58,8 @@ VERUS = [dict(
     ],
     mutants=[
         dict(name="skip_ignored_in_remaining", item="with_fetch", find="(nr - skip).checked_mul(n_partitions)", replace="nr.checked_mul(n_partitions)"),
-        dict(name="fetch_compare_off_by_one", item="with_fetch", find="} else if nr - skip <= fetch_val {", replace="} else if nr - skip < fetch_val {"),
+        # (`nr - skip < fetch_val` is an EQUIVALENT mutant: at equality both branches return the same count; it was accepted, rightly)
+        dict(name="fetch_compare_ignores_skip", item="with_fetch", find="} else if nr - skip <= fetch_val {", replace="} else if nr <= fetch_val {"),
         dict(name="zero_rows_exact_for_inexact", item="with_fetch", find="check_num_rows(Some(0), this.num_rows.is_exact().unwrap())", replace="check_num_rows(Some(0), true)"),
         dict(name="absent_becomes_exact", item="with_fetch", find="fetch_times_partitions(fetch, n_partitions), false)", replace="fetch_times_partitions(fetch, n_partitions), true)"),
         dict(name="check_num_rows_always_exact", item="check_num_rows", find="Precision::Inexact(value)", replace="Precision::Exact(value)"),
@@ -71,9 +72,9 @@ KANI = [dict(package="datafusion-common", module=M, timeout=900, harnesses=[
     dict(name="c29_multiply", complete=True, what="Precision<usize>::multiply, same contract, full 64x64->128 bit domain"),
     dict(name="c29_min_max_to_inexact", complete=True, what="Precision::<usize>::{min,max,to_inexact,is_exact,get_value}: Exact only from two Exact inputs and equal to the true min/max"),
     dict(name="c29_selectivity", complete=True, what="with_estimated_selectivity: only Exact(0) stays Exact (selectivity from {0,0.5,1}; float value irrelevant to exactness)"),
-    dict(name="c29_with_fetch_rows", complete=True, thorough_only=True, what="Statistics::with_fetch with no columns, full domain of (num_rows, fetch, skip, n_partitions): Exact(v) => input Exact and v == rows LIMIT/OFFSET emits (n_partitions==1) / unwrapped product (n_partitions>1)"),
-    dict(name="c29_with_fetch_rows_partitions", complete=True, thorough_only=True, what="with_fetch, symbolic n_partitions: used as counterexample finder (twin of the Verus unit); proving it does not finish (float division)"),
-    dict(name="c29_with_fetch_one_column_bounded", complete=False, thorough_only=True, bound="1 column (column loop), byte sizes Absent", what="with_fetch: when rows are cut no column statistic stays Exact, NDV <= rows; identity case keeps columns"),
+    dict(name="c29_with_fetch_single_partition", complete=True, thorough_only=True, what="Statistics::with_fetch with no columns, full domain of (num_rows, fetch, skip, n_partitions): Exact(v) => input Exact and v == rows LIMIT/OFFSET emits (n_partitions==1) / unwrapped product (n_partitions>1)"),
+    dict(name="c29_with_fetch_rows_partitions", complete=True, twin_only=True, what="with_fetch, symbolic n_partitions: used as counterexample finder (twin of the Verus unit); proving it does not finish (float division)"),
+    dict(name="c29_with_fetch_one_column_bounded", complete=False, twin_only=True, bound="1 column (column loop), byte sizes Absent", what="with_fetch: when rows are cut no column statistic stays Exact, NDV <= rows; identity case keeps columns"),
 ])]
 TRUSTED = ["Kani 0.68 / CBMC 6.11", "std::fmt::format stubbed (error text opaque)"]
 ASSUMPTIONS = ["n_partitions >= 1", "column byte_size / total_byte_size Absent in the with_fetch harnesses (f64 ratio scaling never yields Exact; sliced away)",
